@@ -1,6 +1,7 @@
 (* HistProduct.v — the two state machines of C06 side by side: StateModel.v (module-level tables of the default
    engine, Meta, inheritance, nesting) and HistValueModel.v (typed values, both engines' generated loaders, shared
-   annotation objects, value-level memo).  A history interleaves operations of both.  No proofs. *)
+   annotation objects, value-level memo).  A history interleaves operations of both (the typed machine with the library's
+   policy shared_pat = false).  No proofs. *)
 From DW Require Import PyStr StrConv StateModel HistMemo HistValueModel.
 From Coq Require Import List.
 Import ListNotations.
@@ -23,7 +24,7 @@ Section Product.
   Definition pstep (s : sigma * hstate) (o : pop) : (sigma * hstate) * pout :=
     match o with
     | inl a => let r := step (fst s) a in ((fst r, snd s), inl (snd r))
-    | inr b => let r := hstep conv0 dumpv iso fromts strp mk (snd s) b in ((fst s, fst r), inr (snd r))
+    | inr b => let r := hstep false conv0 dumpv iso fromts strp mk (snd s) b in ((fst s, fst r), inr (snd r))
     end.
   Definition prun (s : sigma * hstate) (h : list pop) : sigma * hstate := fold_left (fun s o => fst (pstep s o)) h s.
 End Product.
